@@ -40,40 +40,40 @@ type world struct {
 	// a valid header makes a non-active client Active again (its newest state is then recent)
 	reviveOnUpdate bool
 	// LC oracle: answers of the light client, one nondeterministic boolean per call
-	auth      bool
-	authCalls int
+	auth                       bool
+	authCalls                  int
 	authSrc, authDst, authPort string
 }
 
 // stubClient is the light client of one counterparty chain (contract LC of DESIGN.md §4).
 type stubClient struct {
-	w      *world
-	chain  string
-	typ    string // client type ("" = "stub")
-	latest clienttypes.Height
+	w       *world
+	chain   string
+	typ     string // client type ("" = "stub")
+	latest  clienttypes.Height
 	revived bool // state after a header update that brought the client back inside its trusting period
 }
 
 // stubCons is a consensus state of a given client type.
 type stubCons struct{ typ string }
 
-func (c *stubCons) Reset()                    {}
-func (c *stubCons) String() string            { return "stubcons" }
-func (c *stubCons) ProtoMessage()             {}
-func (c *stubCons) ClientType() string        { return c.typ }
-func (c *stubCons) GetRoot() exported.Root    { return nil }
-func (c *stubCons) GetTimestamp() uint64      { return 0 }
-func (c *stubCons) ValidateBasic() error      { return nil }
+func (c *stubCons) Reset()                 {}
+func (c *stubCons) String() string         { return "stubcons" }
+func (c *stubCons) ProtoMessage()          {}
+func (c *stubCons) ClientType() string     { return c.typ }
+func (c *stubCons) GetRoot() exported.Root { return nil }
+func (c *stubCons) GetTimestamp() uint64   { return 0 }
+func (c *stubCons) ValidateBasic() error   { return nil }
 
 // stubHeader is a header for a stub client.
 type stubHeader struct{ h clienttypes.Height }
 
-func (h *stubHeader) Reset()                      {}
-func (h *stubHeader) String() string              { return "stubheader" }
-func (h *stubHeader) ProtoMessage()               {}
-func (h *stubHeader) ClientType() string          { return "stub" }
-func (h *stubHeader) GetHeight() exported.Height  { return h.h }
-func (h *stubHeader) ValidateBasic() error        { return nil }
+func (h *stubHeader) Reset()                     {}
+func (h *stubHeader) String() string             { return "stubheader" }
+func (h *stubHeader) ProtoMessage()              {}
+func (h *stubHeader) ClientType() string         { return "stub" }
+func (h *stubHeader) GetHeight() exported.Height { return h.h }
+func (h *stubHeader) ValidateBasic() error       { return nil }
 
 func (c *stubClient) Reset()         {}
 func (c *stubClient) String() string { return "stub" }
@@ -86,10 +86,10 @@ func (c *stubClient) ClientType() string {
 	return c.typ
 }
 func (c *stubClient) GetLatestHeight() exported.Height { return c.latest }
-func (c *stubClient) Validate() error                    { return nil }
-func (c *stubClient) GetDelayTime() uint64               { return 0 }
-func (c *stubClient) GetDelayBlock() uint64              { return 0 }
-func (c *stubClient) GetPrefix() exported.Prefix         { return nil }
+func (c *stubClient) Validate() error                  { return nil }
+func (c *stubClient) GetDelayTime() uint64             { return 0 }
+func (c *stubClient) GetDelayBlock() uint64            { return 0 }
+func (c *stubClient) GetPrefix() exported.Prefix       { return nil }
 func (c *stubClient) Initialize(sdk.Context, codec.BinaryCodec, storetypes.KVStore, exported.ConsensusState) error {
 	return nil
 }
